@@ -17,6 +17,17 @@ def run(check, tier):
     rcases = S.gen_run_cases(check.seed, tier)
     ures = run_cases("errors_suite", "case_unit", ucases, chunk=32)
     rres = run_cases("errors_suite", "case_run", rcases, chunk=16)
+    icases = S.gen_import_cases(check.seed, tier)
+    for res in run_cases("errors_suite", "case_import", icases, chunk=4):
+        if "infra_error" in res:
+            check.infra.append(res["infra_error"] + res.get("trace", "")[-600:])
+            continue
+        check.evaluations += 1
+        if res.get("nontrivial"):
+            check.nontriv(["import", res["case"]["policy"], res["case"]["tokens"], res["case"]["kind"], res["case"]["bad"], res["case"]["method"]])
+        if res["oracle"]:
+            check.violation(res["oracle"][0]["what"], {"input": res["case"], "oracle": res["oracle"][:2]})
+    check.extra["import_cases"] = len(icases)
     pols = set()
     kinds = {}
     for res in ures + rres:
@@ -46,4 +57,6 @@ def run(check, tier):
     check.extra["run_cases"] = len(rcases)
     check.extra["rule"] = ("unit: all 64 policy subsets x validation-mode token sets (sampled in quick, all 243 in thorough) x 1-3 errors through the real "
                            "ErrorHandler; run: real csvpaths with an error-provoking component (7 kinds: argument mismatch, Python exception, nested, "
-                           "right-hand side, assignment) at chosen lines, first or last in the match part; non-trivial = some but not all lines error")
+                           "right-hand side, assignment) at chosen lines, first or last in the match part; non-trivial = some but not all lines error; "
+                           "import: the erroring component written in another named csvpath and brought in with import(), run through CsvPaths, against the "
+                           "same component written inline (error lines, verdict, stop, printouts, lines)")
